@@ -1061,6 +1061,19 @@ func (e *Exec) rangeStmt(x *ast.RangeStmt, st *State, fr *Frame) Flow {
 			n = e.seqLen(coll)
 		}
 		nn := e.vc.Define("rangelen", "Int", n)
+		// `for k, v = range s` (assignment form): the variables outlive the loop; after it they hold the values of the last
+		// iteration, or what they held before when there was none
+		var preKey, preVal *Term
+		if x.Tok == token.ASSIGN {
+			if id, ok := x.Key.(*ast.Ident); ok && id.Name != "_" {
+				t := e.eval(id, e.ctx(st, fr))
+				preKey = &t
+			}
+			if id, ok := x.Value.(*ast.Ident); ok && id.Name != "_" {
+				t := e.eval(id, e.ctx(st, fr))
+				preVal = &t
+			}
+		}
 		// make the index variable visible before the invariants are evaluated
 		if x.Key != nil {
 			bind(x.Key, st, Term{"0", tInt})
@@ -1084,6 +1097,13 @@ func (e *Exec) rangeStmt(x *ast.RangeStmt, st *State, fr *Frame) Flow {
 		headSnap := head.clone()
 		ex := head.clone()
 		e.assume(ex, fmt.Sprintf("(>= %s %s)", iv.S, nn))
+		if preKey != nil {
+			bind(x.Key, ex, Term{fmt.Sprintf("(ite (> %s 0) (- %s 1) %s)", nn, nn, preKey.S), tInt})
+		}
+		if preVal != nil && coll.T.K == KSlice {
+			last := e.seqGet(coll, fmt.Sprintf("(- %s 1)", nn))
+			bind(x.Value, ex, Term{fmt.Sprintf("(ite (> %s 0) %s %s)", nn, last.S, e.coerce(*preVal, last.T, ex).S), last.T})
+		}
 		body := head.clone()
 		e.assume(body, fmt.Sprintf("(< %s %s)", iv.S, nn))
 		if len(invs) > 0 {
